@@ -1,13 +1,832 @@
-(* Proofs for C11 (Decoder). *)
+(* Proofs for C11 (Decoder): json.Decoder framing (Json/StreamModel.v) against the grammar (Json/StateSpec.v).
+   Structure:
+     A. grammar lemmas: fuel monotonicity of g_value, stability of an accepted value under extension of the input;
+     B. second pass over the machine-translated parser: the rest returned with an error, the kind of numbers;
+     D. skipSpacesN, io.ReadFull on a script, the equation of one iteration of readValue, offset_monotone;
+     E. the invariant of the decoder state, refill, readValue, Decode to the end, simulation of two readers. *)
 From Verif Require Import Base.GoInt Generated.AsmAsciiGen Ascii.AsmTotal Generated.AsciiGen Json.Ext Generated.JsonParseGen Json.Grammar Json.Spec Json.ValidProofs Json.StreamModel Json.StateSpec.
 From Coq Require Import ZifyBool.
 Open Scope Z_scope.
 
+(* ================= A. grammar: fuel monotonicity and stability under extension ================= *)
+Definition num_start (b : bytes) : bool := match b with c :: _ => (c =? 45) || is_digit c | [] => false end.
+
+Lemma skip_ws_app s m : skip_ws s <> [] -> skip_ws (s ++ m) = skip_ws s ++ m.
+Proof.
+  induction s as [|c r IH]; cbn [skip_ws app]; [congruence|]. destruct (is_ws c); [assumption|reflexivity].
+Qed.
+Lemma skip_digits_app s m : skip_digits s <> [] -> skip_digits (s ++ m) = skip_digits s ++ m.
+Proof.
+  induction s as [|c r IH]; cbn [skip_digits app]; [congruence|]. destruct (is_digit c); [assumption|reflexivity].
+Qed.
+
+Lemma g_elems_0 f b : g_elems f 0 b = None.
+Proof. reflexivity. Qed.
+Lemma g_members_0 f b : g_members f 0 b = None.
+Proof. reflexivity. Qed.
+Lemma g_elems_nil f n : g_elems f n [] = None.
+Proof. destruct n; [reflexivity|]. rewrite g_elems_eq, g_value_nil. reflexivity. Qed.
+Lemma g_members_nil f n : g_members f n [] = None.
+Proof. destruct n; reflexivity. Qed.
+
+Lemma g_elems_mono f f' : (forall b r, g_value f b = Some r -> g_value f' b = Some r) ->
+  forall n n' b r, g_elems f n b = Some r -> (n <= n')%nat -> g_elems f' n' b = Some r.
+Proof.
+  intros IH. induction n as [|n IHn]; intros n' b r H L; [discriminate H|].
+  destruct n' as [|n']; [lia|]. rewrite g_elems_eq in *.
+  destruct (g_value f b) as [r1|] eqn:G; [|discriminate]. rewrite (IH _ _ G).
+  unfold g_after_elem in *. destruct (skip_ws r1) as [|c r']; [discriminate|].
+  destruct (c =? 44); [apply IHn; [assumption|lia]|assumption].
+Qed.
+Lemma g_members_mono f f' : (forall b r, g_value f b = Some r -> g_value f' b = Some r) ->
+  forall n n' b r, g_members f n b = Some r -> (n <= n')%nat -> g_members f' n' b = Some r.
+Proof.
+  intros IH. induction n as [|n IHn]; intros n' b r H L; [discriminate H|].
+  destruct n' as [|n']; [lia|]. rewrite g_members_eq in *.
+  destruct (g_str_tok b) as [r1|]; [|discriminate].
+  unfold g_after_key in *. destruct (skip_ws r1) as [|c r']; [discriminate|].
+  destruct (c =? 58); [|discriminate].
+  destruct (g_value f (skip_ws r')) as [r2|] eqn:G; [|discriminate]. rewrite (IH _ _ G).
+  unfold g_after_member in *. destruct (skip_ws r2) as [|c2 r2']; [discriminate|].
+  destruct (c2 =? 44); [apply IHn; [assumption|lia]|assumption].
+Qed.
+
+Lemma g_value_mono f f' b r : g_value f b = Some r -> (f <= f')%nat -> g_value f' b = Some r.
+Proof.
+  revert f' b r. induction f as [|f IH]; intros f' b r H L; [discriminate H|].
+  destruct f' as [|f']; [lia|]. destruct b as [|c r0]; [rewrite g_value_nil in H; discriminate|].
+  assert (IH' : forall b r, g_value f b = Some r -> g_value f' b = Some r) by (intros; apply IH; [assumption|lia]).
+  destruct (Z.eqb_spec c 110); [subst c; rewrite g_value_null in *; assumption|].
+  destruct (Z.eqb_spec c 116); [subst c; rewrite g_value_true in *; assumption|].
+  destruct (Z.eqb_spec c 102); [subst c; rewrite g_value_false in *; assumption|].
+  destruct (Z.eqb_spec c 34); [subst c; rewrite g_value_string in *; assumption|].
+  destruct (Z.eqb_spec c 91).
+  { subst c. rewrite g_value_array in *. destruct (skip_ws r0) as [|c r'].
+    - rewrite g_elems_nil in H. discriminate.
+    - destruct (c =? 93); [assumption|]. apply (g_elems_mono f f' IH' f f'); [assumption|lia]. }
+  destruct (Z.eqb_spec c 123).
+  { subst c. rewrite g_value_object in *. destruct (skip_ws r0) as [|c r'].
+    - rewrite g_members_nil in H. discriminate.
+    - destruct (c =? 125); [assumption|]. apply (g_members_mono f f' IH' f f'); [assumption|lia]. }
+  rewrite g_value_other in * by lia. assumption.
+Qed.
+
+Lemma g_string_ext_n : forall n s r m, (length s <= n)%nat -> g_string s = Some r -> g_string (s ++ m) = Some (r ++ m).
+Proof.
+  induction n as [|n IH]; intros s r m L H.
+  { destruct s; [discriminate H|cbn in L; lia]. }
+  destruct s as [|c s]; [discriminate H|]. cbn [app length] in *. rewrite g_string_eq in *.
+  destruct (c =? 34); [injection H as H; subst; reflexivity|].
+  destruct (c =? 92).
+  - destruct s as [|e s]; [discriminate|]. cbn [app length] in *.
+    destruct (is_escape_letter e); [apply IH; [lia|assumption]|].
+    destruct (e =? 117); [|discriminate].
+    destruct s as [|h1 [|h2 [|h3 [|h4 s]]]]; try discriminate. cbn [app length] in *.
+    destruct (is_hex h1 && is_hex h2 && is_hex h3 && is_hex h4); [|discriminate]. apply IH; [lia|assumption].
+  - destruct (c <? 32); [discriminate|]. apply IH; [lia|assumption].
+Qed.
+Lemma g_string_ext s r m : g_string s = Some r -> g_string (s ++ m) = Some (r ++ m).
+Proof. apply (g_string_ext_n (length s)). lia. Qed.
+
+Lemma strip_prefix_ext p : forall b r m, strip_prefix p b = Some r -> strip_prefix p (b ++ m) = Some (r ++ m).
+Proof.
+  induction p as [|x p IH]; intros b r m H; cbn [strip_prefix] in *.
+  - injection H as H. subst. reflexivity.
+  - destruct b as [|y b]; [discriminate|]. cbn [app]. destruct (y =? x); [apply IH; assumption|discriminate].
+Qed.
+
+Lemma g_exp_ext x r m : g_exp x = Some r -> r <> [] -> g_exp (x ++ m) = Some (r ++ m).
+Proof.
+  intros H N. destruct x as [|e t]; [cbn in H; injection H as H; congruence|].
+  cbn [app]. unfold g_exp in *. destruct ((e =? 101) || (e =? 69)).
+  - assert (K : forall t', match t' with d :: r' => if is_digit d then Some (skip_digits r') else None | [] => None end = Some r ->
+              match t' ++ m with d :: r' => if is_digit d then Some (skip_digits r') else None | [] => None end = Some (r ++ m)).
+    { intros [|d t'] K; [discriminate|]. cbn [app]. destruct (is_digit d); [|discriminate].
+      injection K as K. subst r. rewrite skip_digits_app by assumption. reflexivity. }
+    destruct t as [|s t']; [discriminate|]. cbn [app].
+    destruct ((s =? 43) || (s =? 45)); [apply K; assumption|]. apply (K (s :: t')). assumption.
+  - injection H as H. subst r. reflexivity.
+Qed.
+Definition g_fe (x : bytes) : option bytes := match g_frac x with Some r => g_exp r | None => None end.
+Lemma g_fe_ext x r m : g_fe x = Some r -> r <> [] -> g_fe (x ++ m) = Some (r ++ m).
+Proof.
+  unfold g_fe. intros H N. rewrite g_frac_eq in *. destruct x as [|c t].
+  { cbn in H. injection H as H. congruence. }
+  cbn [app]. destruct (c =? 46).
+  - destruct t as [|d t']; [discriminate|]. cbn [app]. destruct (is_digit d); [|discriminate].
+    assert (skip_digits t' <> []).
+    { intros E. rewrite E in H. cbn in H. injection H as H. congruence. }
+    rewrite skip_digits_app by assumption. apply g_exp_ext; assumption.
+  - apply (g_exp_ext (c :: t)); assumption.
+Qed.
+Lemma g_number_body_ext x r m : g_number_body x = Some r -> r <> [] -> g_number_body (x ++ m) = Some (r ++ m).
+Proof.
+  intros H N. destruct x as [|c t]; [discriminate|]. cbn [app g_number_body] in *.
+  fold (g_fe t) in H. fold (g_fe (t ++ m)). fold (g_fe (skip_digits t)) in H. fold (g_fe (skip_digits (t ++ m))).
+  destruct (c =? 48); [apply g_fe_ext; assumption|].
+  destruct (is_digit c); [|discriminate].
+  assert (skip_digits t <> []).
+  { intros E. rewrite E in H. cbn in H. injection H as H. congruence. }
+  rewrite skip_digits_app by assumption. apply g_fe_ext; assumption.
+Qed.
+Lemma g_number_ext x r m : g_number x = Some r -> r <> [] -> g_number (x ++ m) = Some (r ++ m).
+Proof.
+  rewrite !g_number_eq. intros H N. destruct x as [|c t]; [discriminate|]. cbn [app].
+  destruct (c =? 45); [apply g_number_body_ext; assumption|]. apply (g_number_body_ext (c :: t)); assumption.
+Qed.
+
+Lemma g_elems_ext f m : (forall b r, g_value f b = Some r -> r <> [] -> g_value f (b ++ m) = Some (r ++ m)) ->
+  forall n b r, g_elems f n b = Some r -> g_elems f n (b ++ m) = Some (r ++ m).
+Proof.
+  intros IH. induction n as [|n IHn]; intros b r H; [discriminate H|].
+  rewrite g_elems_eq in *. destruct (g_value f b) as [r1|] eqn:G; [|discriminate].
+  unfold g_after_elem in *. destruct (skip_ws r1) as [|c r'] eqn:W; [discriminate|].
+  assert (N1 : r1 <> []) by (intros E; subst r1; discriminate W).
+  rewrite (IH _ _ G N1). unfold g_after_elem. rewrite skip_ws_app by (rewrite W; discriminate). rewrite W. cbn [app].
+  destruct (c =? 44).
+  - destruct (skip_ws r') as [|c2 r2] eqn:W2; [rewrite g_elems_nil in H; discriminate|].
+    rewrite skip_ws_app by (rewrite W2; discriminate). rewrite W2. apply IHn. assumption.
+  - destruct (c =? 93); [|discriminate]. injection H as H. subst. reflexivity.
+Qed.
+Lemma g_members_ext f m : (forall b r, g_value f b = Some r -> r <> [] -> g_value f (b ++ m) = Some (r ++ m)) ->
+  forall n b r, g_members f n b = Some r -> g_members f n (b ++ m) = Some (r ++ m).
+Proof.
+  intros IH. induction n as [|n IHn]; intros b r H; [discriminate H|].
+  rewrite g_members_eq in *. unfold g_str_tok in *. destruct b as [|q k]; [discriminate|]. cbn [app].
+  destruct (q =? 34); [|discriminate]. destruct (g_string k) as [r1|] eqn:GS; [|discriminate].
+  rewrite (g_string_ext _ _ m GS). unfold g_after_key in *.
+  destruct (skip_ws r1) as [|c r'] eqn:W; [discriminate|].
+  rewrite skip_ws_app by (rewrite W; discriminate). rewrite W. cbn [app].
+  destruct (c =? 58); [|discriminate].
+  destruct (g_value f (skip_ws r')) as [r2|] eqn:G; [|discriminate].
+  destruct (skip_ws r') as [|c1 r1'] eqn:W1; [rewrite g_value_nil in G; discriminate|].
+  rewrite skip_ws_app by (rewrite W1; discriminate). rewrite W1.
+  unfold g_after_member in *. destruct (skip_ws r2) as [|c2 r2'] eqn:W2; [discriminate|].
+  assert (N2 : r2 <> []) by (intros E; subst r2; discriminate W2).
+  rewrite (IH _ _ G N2). rewrite skip_ws_app by (rewrite W2; discriminate). rewrite W2. cbn [app].
+  destruct (c2 =? 44).
+  - destruct (skip_ws r2') as [|c3 r3] eqn:W3; [rewrite g_members_nil in H; discriminate|].
+    rewrite skip_ws_app by (rewrite W3; discriminate). rewrite W3. apply IHn. assumption.
+  - destruct (c2 =? 125); [|discriminate]. injection H as H. subst. reflexivity.
+Qed.
+
+Lemma g_value_ext f : forall b r m, g_value f b = Some r -> (r <> [] \/ num_start b = false) ->
+  g_value f (b ++ m) = Some (r ++ m).
+Proof.
+  induction f as [|f IH]; intros b r m H N; [discriminate H|].
+  destruct b as [|c r0]; [rewrite g_value_nil in H; discriminate|]. cbn [app].
+  assert (IH' : forall b r, g_value f b = Some r -> r <> [] -> g_value f (b ++ m) = Some (r ++ m)).
+  { intros b' r' G' N'. apply IH; [assumption|left; assumption]. }
+  destruct (Z.eqb_spec c 110); [subst c; rewrite g_value_null in *; apply strip_prefix_ext; assumption|].
+  destruct (Z.eqb_spec c 116); [subst c; rewrite g_value_true in *; apply strip_prefix_ext; assumption|].
+  destruct (Z.eqb_spec c 102); [subst c; rewrite g_value_false in *; apply strip_prefix_ext; assumption|].
+  destruct (Z.eqb_spec c 34); [subst c; rewrite g_value_string in *; apply g_string_ext; assumption|].
+  destruct (Z.eqb_spec c 91).
+  { subst c. rewrite g_value_array in *. destruct (skip_ws r0) as [|c r'] eqn:W.
+    - rewrite g_elems_nil in H. discriminate.
+    - rewrite skip_ws_app by (rewrite W; discriminate). rewrite W. cbn [app].
+      destruct (c =? 93); [injection H as H; subst; reflexivity|].
+      apply (g_elems_ext f m IH' f (c :: r')). assumption. }
+  destruct (Z.eqb_spec c 123).
+  { subst c. rewrite g_value_object in *. destruct (skip_ws r0) as [|c r'] eqn:W.
+    - rewrite g_members_nil in H. discriminate.
+    - rewrite skip_ws_app by (rewrite W; discriminate). rewrite W. cbn [app].
+      destruct (c =? 125); [injection H as H; subst; reflexivity|].
+      apply (g_members_ext f m IH' f (c :: r')). assumption. }
+  rewrite g_value_other in * by lia.
+  apply (g_number_ext (c :: r0)); [assumption|].
+  destruct N as [N|N]; [assumption|]. cbn [num_start] in N.
+  rewrite g_number_bad in H; [discriminate|lia|lia].
+Qed.
+Lemma g_value_ext_any f b r : g_value f b = Some r -> (r <> [] \/ num_start b = false) ->
+  forall f' m r', g_value f' (b ++ m) = Some r' -> r' = r ++ m.
+Proof.
+  intros G H f' m r' G'.
+  pose proof (g_value_ext f b r m G H) as G2.
+  apply (g_value_mono _ (Nat.max f f')) in G2; [|lia].
+  apply (g_value_mono _ (Nat.max f f')) in G'; [|lia]. congruence.
+Qed.
+
+Lemma pv_bad : forall fuel d b v r k e, wfb b = true -> len b < 2 ^ 62 -> flags_sound d b -> (2 * length b + 4 <= fuel)%nat ->
+  json_decoder_parseValue fuel d b = Some (v, r, k, Some e) -> r <> [] -> forall gf m, g_value gf (b ++ m) = None.
+Admitted.
+Lemma pv_kind : forall fuel d b v r k, json_decoder_parseValue fuel d b = Some (v, r, k, None) -> num_start b = true -> is_num_kind k = true.
+Admitted.
+
+(* ================= D. skipSpacesN, the reader, one step of readValue ================= *)
+Lemma ssn_fst b : fst (json_skipSpacesN b) = skip_ws b.
+Proof. rewrite skipSpacesN_eq. apply ssn_loop_spec; [lia|apply sf_0]. Qed.
+Lemma ssn_loop_nonneg b : forall rest i, 0 <= i -> 0 <= snd (ssn_loop b rest i).
+Proof.
+  induction rest as [|c r IH]; intros i Hi; cbn [ssn_loop snd]; [apply len_nonneg|].
+  destruct (is_ws (at_ b i)); [apply IH; lia|assumption].
+Qed.
+Lemma ssn_snd b : 0 <= snd (json_skipSpacesN b).
+Proof. rewrite skipSpacesN_eq. apply ssn_loop_nonneg. lia. Qed.
+
+(* the pieces of one iteration of read_value *)
+Definition rv_attempt (pfuel : nat) (dflags : Z) (st : dstate) : option (dresult * dstate) :=
+  if len (d_remain st) =? 0 then None else
+  match json_decoder_parseValue pfuel dflags (d_remain st) with
+  | None => Some (DOutOfFuel, st)
+  | Some (v, r, k, err) =>
+      match err with
+      | None =>
+          if negb (len r =? 0) || (match d_err st with Some REOF => true | _ => false end) || negb (is_num_kind k) then
+            let '(rem', n) := json_skipSpacesN r in
+            Some (DValue v, {| d_buffer := d_buffer st; d_cap := d_cap st; d_remain := rem';
+                               d_offset := d_offset st + len v + n; d_err := d_err st; d_reader := d_reader st; d_term := d_term st |})
+          else None
+      | Some _ => if negb (len r =? 0) then Some (DSyntax, st) else None
+      end
+  end.
+Definition rf_buf (st : dstate) : bytes := if d_cap st =? 0 then [] else d_remain st.
+Definition rf_cap (st : dstate) : Z :=
+  let cap := if d_cap st =? 0 then json_minBufferSize else d_cap st in
+  if (cap - len (rf_buf st)) <? json_minReadSize then 2 * cap else cap.
+Definition rf_read (st : dstate) : bytes * option rerr * script :=
+  read_full (S (length (d_reader st))) (d_term st) (d_reader st) (rf_cap st - len (rf_buf st)) [].
+Definition rf_err (data : bytes) (rerr0 : option rerr) : option rerr :=
+  if len data >? 0 then None else match rerr0 with Some RUnexpectedEOF => Some REOF | x => x end.
+Definition rf_state (st : dstate) : dstate :=
+  let data := fst (fst (rf_read st)) in
+  let buf := rf_buf st ++ data in
+  {| d_buffer := buf; d_cap := rf_cap st; d_remain := fst (json_skipSpacesN buf);
+     d_offset := d_offset st + snd (json_skipSpacesN buf); d_err := rf_err data (snd (fst (rf_read st)));
+     d_reader := snd (rf_read st); d_term := d_term st |}.
+Definition rf_flags (pfuel : nat) (flags : Z) (st : dstate) : Z :=
+  match json_internalParseFlags pfuel (d_remain (rf_state st)) with Some d => Z.lor flags d | None => flags end.
+Definition rv_final (st : dstate) (e : rerr) : dresult :=
+  match e with
+  | REOF => if negb (len (d_remain st) =? 0) then DError RUnexpectedEOF else DError REOF
+  | x => DError x
+  end.
+
+Lemma read_value_eq f pfuel flags dflags st :
+  read_value (S f) pfuel flags dflags st =
+  match rv_attempt pfuel dflags st with
+  | Some r => r
+  | None =>
+      match d_err st with
+      | Some e => (rv_final st e, st)
+      | None => read_value f pfuel flags (rf_flags pfuel flags st) (rf_state st)
+      end
+  end.
+Proof.
+  cbn [read_value]. fold (rv_attempt pfuel dflags st).
+  destruct (rv_attempt pfuel dflags st) as [r|]; [reflexivity|].
+  destruct (d_err st) as [e|]; [reflexivity|].
+  unfold rf_flags, rf_state, rf_read, rf_cap, rf_buf, rf_err.
+  destruct (d_cap st =? 0).
+  - cbv zeta.
+    destruct (read_full (S (length (d_reader st))) (d_term st) (d_reader st)
+      ((if json_minBufferSize - len (@nil Z) <? json_minReadSize then 2 * json_minBufferSize else json_minBufferSize) - len (@nil Z)) [])
+      as [[data e] rd].
+    cbn [fst snd d_remain]. destruct (json_skipSpacesN ([] ++ data)) as [rem' ns]. reflexivity.
+  - cbv zeta.
+    destruct (read_full (S (length (d_reader st))) (d_term st) (d_reader st)
+      ((if d_cap st - len (d_remain st) <? json_minReadSize then 2 * d_cap st else d_cap st) - len (d_remain st)) [])
+      as [[data e] rd].
+    cbn [fst snd d_remain]. destruct (json_skipSpacesN (d_remain st ++ data)) as [rem' ns]. reflexivity.
+Qed.
+Lemma read_value_0 pfuel flags dflags st : read_value 0 pfuel flags dflags st = (DOutOfFuel, st).
+Proof. reflexivity. Qed.
+
+
+(* ================= offsets never decrease ================= *)
+Lemma rv_attempt_offset pfuel dflags st res st' : rv_attempt pfuel dflags st = Some (res, st') ->
+  d_offset st <= d_offset st'.
+Proof.
+  unfold rv_attempt. destruct (len (d_remain st) =? 0); [discriminate|].
+  destruct (json_decoder_parseValue pfuel dflags (d_remain st)) as [[[[v r] k] [e|]]|].
+  - destruct (negb (len r =? 0)); [|discriminate]. intros H. injection H as _ H. subst st'. lia.
+  - destruct (negb (len r =? 0) || _ || _); [|discriminate].
+    pose proof (ssn_snd r) as N. destruct (json_skipSpacesN r) as [rem' n]. cbn [snd] in N.
+    intros H. injection H as _ H. subst st'. cbn [d_offset]. pose proof (len_nonneg v). lia.
+  - intros H. injection H as _ H. subst st'. lia.
+Qed.
+Lemma read_value_offset : forall f pfuel flags dflags st res st',
+  read_value f pfuel flags dflags st = (res, st') -> d_offset st <= d_offset st'.
+Proof.
+  induction f as [|f IH]; intros pfuel flags dflags st res st' H.
+  { rewrite read_value_0 in H. injection H as _ H. subst. lia. }
+  rewrite read_value_eq in H. destruct (rv_attempt pfuel dflags st) as [[res0 st0]|] eqn:A.
+  - injection H as _ H. subst st0. eapply rv_attempt_offset; eassumption.
+  - destruct (d_err st) as [e|].
+    + injection H as _ H. subst. lia.
+    + apply IH in H. unfold rf_state in H. cbn [d_offset] in H.
+      pose proof (ssn_snd (rf_buf st ++ fst (fst (rf_read st)))). lia.
+Qed.
+
+Lemma nondecreasing_snoc l x : nondecreasing l = true -> (forall y, In y l -> y <= x) -> nondecreasing (l ++ [x]) = true.
+Proof.
+  induction l as [|a l IH]; intros H B; [reflexivity|].
+  destruct l as [|b l].
+  - cbn. specialize (B a (or_introl eq_refl)). lia.
+  - change ((a :: b :: l) ++ [x]) with (a :: (b :: l) ++ [x]).
+    change (nondecreasing (a :: b :: l)) with ((a <=? b) && nondecreasing (b :: l)) in H.
+    apply andb_true_iff in H. destruct H as [H1 H2].
+    change (nondecreasing (a :: (b :: l) ++ [x])) with ((a <=? b) && nondecreasing ((b :: l) ++ [x])).
+    rewrite H1. cbn [andb]. apply IH; [assumption|]. intros y Hy. apply B. right. assumption.
+Qed.
+Lemma decode_all_offsets : forall steps fuel pfuel st acc offs,
+  nondecreasing (rev offs) = true -> (forall y, In y offs -> y <= d_offset st) ->
+  nondecreasing (snd (decode_all steps fuel pfuel st acc offs)) = true.
+Proof.
+  induction steps as [|k IH]; intros fuel pfuel st acc offs H B; [exact H|].
+  cbn [decode_all]. destruct (read_value fuel pfuel 0 0 st) as [res st'] eqn:R.
+  apply read_value_offset in R.
+  destruct res; try exact H.
+  apply IH.
+  - cbn [rev]. apply nondecreasing_snoc; [assumption|]. intros y Hy. apply in_rev in Hy. specialize (B y Hy). lia.
+  - intros y [Hy|Hy]; [lia|]. specialize (B y Hy). lia.
+Qed.
 Lemma offset_monotone : offset_monotone_statement.
-Admitted.
+Proof.
+  intros s term _ _. unfold all_values. apply decode_all_offsets; [reflexivity|]. intros y [].
+Qed.
+
+Definition term_err (term : rerr) (got : bytes) : rerr :=
+  match term with REOF => if len got =? 0 then REOF else RUnexpectedEOF | x => x end.
+Lemma script_clean_cons d e r : script_clean ((d, e) :: r) -> e = None /\ script_clean r.
+Proof.
+  intros H. split; [apply (H d e); left; reflexivity|]. intros d' e' I. apply (H d' e'). right. assumption.
+Qed.
+Lemma script_clean_nil : script_clean [].
+Proof. intros d e []. Qed.
+Lemma len_slice_to (d : bytes) n : 0 <= n <= len d -> len (slice_to d n) = n.
+Proof. unfold slice_to, len. intros H. rewrite firstn_length. lia. Qed.
+
+Lemma read_full_spec term : forall s fuel n acc, script_clean s -> (length s < fuel)%nat -> 0 <= n ->
+  exists data e s', read_full fuel term s n acc = (acc ++ data, e, s') /\
+    script_data s = data ++ script_data s' /\ script_clean s' /\ len data <= n /\
+    (e = None -> len data = n) /\
+    (e <> None -> s' = [] /\ len data < n /\ e = Some (term_err term (acc ++ data))).
+Proof.
+  induction s as [|[d e0] r IH]; intros fuel n acc C F Hn.
+  - destruct fuel as [|f]; [lia|]. cbn [read_full]. destruct (Z.leb_spec n 0).
+    + exists [], None, []. rewrite app_nil_r. repeat split; try reflexivity; try assumption; try (cbn; lia); try congruence.
+    + cbn [read_once]. change (len (@nil Z)) with 0. destruct (Z.eqb_spec 0 n); [lia|].
+      exists [], (Some (term_err term (acc ++ []))), []. repeat split; try reflexivity; try assumption; try (cbn; lia). discriminate.
+  - apply script_clean_cons in C. destruct C as [E0 C]. subst e0.
+    destruct fuel as [|f]; [lia|]. cbn [length] in F. cbn [read_full]. destruct (Z.leb_spec n 0).
+    + exists [], None, ((d, None) :: r). rewrite app_nil_r.
+      repeat split; try reflexivity; try (cbn; lia); try congruence.
+      intros d' e' [I|I]; [congruence|apply (C d' e' I)].
+    + cbn [read_once]. destruct (Z.leb_spec (len d) n).
+      * destruct (IH f (n - len d) (acc ++ d) C ltac:(lia) ltac:(lia)) as (data & e & s' & R & SD & C' & L & EN & EE).
+        rewrite R. exists (d ++ data), e, s'. rewrite <- app_assoc in *. rewrite len_app.
+        split; [reflexivity|]. split; [unfold script_data in *; cbn [map concat fst]; rewrite SD; apply app_assoc|].
+        split; [assumption|]. split; [lia|]. split; [intros X; specialize (EN X); lia|].
+        intros X. destruct (EE X) as (E1 & E2 & E3). repeat split; try assumption; lia.
+      * destruct f as [|f']; [lia|].
+        pose proof (len_slice_to d n ltac:(lia)) as LS. cbn [read_full]. rewrite LS.
+        destruct (Z.leb_spec (n - n) 0); [|lia].
+        exists (slice_to d n), None, ((slice_from d n, None) :: r).
+        split; [reflexivity|]. split; [unfold script_data; cbn [map concat fst]; rewrite app_assoc, st_sf; reflexivity|].
+        split; [intros d' e' [I|I]; [congruence|apply (C d' e' I)]|].
+        split; [lia|]. split; [intros _; assumption|congruence].
+Qed.
+
+(* ================= E1. the invariant of the decoder state; one refill ================= *)
+Lemma wfb_app_iff a b : wfb (a ++ b) = true <-> wfb a = true /\ wfb b = true.
+Proof. unfold wfb. rewrite forallb_app. apply andb_true_iff. Qed.
+Lemma skip_ws_app2 x y : skip_ws (skip_ws x ++ y) = skip_ws (x ++ y).
+Proof.
+  induction x as [|c r IH]; cbn [skip_ws app]; [reflexivity|].
+  destruct (is_ws c) eqn:W; [assumption|]. cbn [skip_ws app]. rewrite W. reflexivity.
+Qed.
+Lemma skip_ws_len b : len (skip_ws b) <= len b.
+Proof. pose proof (skip_ws_length b). unfold len. lia. Qed.
+
+Definition unread (st : dstate) : bytes := script_data (d_reader st).
+Definition stream (st : dstate) : bytes := d_remain st ++ unread st.
+Definition final_err (term : rerr) : rerr := match term with RFail => RFail | _ => REOF end.
+Definition Inv (st : dstate) : Prop :=
+  script_clean (d_reader st) /\
+  skip_ws (d_remain st) = d_remain st /\
+  (d_err st <> None -> d_reader st = []) /\
+  wfb (stream st) = true /\
+  ((d_cap st = 0 /\ d_remain st = []) \/ (0 < d_cap st /\ len (d_remain st) <= d_cap st)) /\
+  (forall e, d_err st = Some e -> e = final_err (d_term st)).
+Definition mu (st : dstate) : nat :=
+  (length (unread st) + (match d_reader st with [] => 0 | _ => 1 end) + (match d_err st with None => 1 | Some _ => 0 end) + 1)%nat.
+
+Lemma rf_buf_inv st : Inv st -> rf_buf st = d_remain st.
+Proof.
+  intros (_ & _ & _ & _ & C & _). unfold rf_buf. destruct (Z.eqb_spec (d_cap st) 0) as [E|E]; [|reflexivity].
+  destruct C as [[_ C]|[C _]]; [congruence|lia].
+Qed.
+Lemma rf_cap_inv st : Inv st -> 0 < rf_cap st - len (d_remain st) /\ 0 < rf_cap st.
+Proof.
+  intros I. pose proof (rf_buf_inv st I) as B. destruct I as (_ & _ & _ & _ & C & _).
+  unfold rf_cap. rewrite B. pose proof (len_nonneg (d_remain st)) as L. cbv zeta.
+  unfold json_minBufferSize, json_minReadSize.
+  destruct C as [[C1 C2]|[C1 C2]].
+  - rewrite C1, C2. cbn. lia.
+  - destruct (Z.eqb_spec (d_cap st) 0); [lia|].
+    destruct (Z.ltb_spec (d_cap st - len (d_remain st)) 4096); lia.
+Qed.
+
+Lemma rf_spec st : Inv st -> d_err st = None ->
+  Inv (rf_state st) /\ skip_ws (stream (rf_state st)) = skip_ws (stream st) /\
+  (mu (rf_state st) < mu st)%nat /\ d_term (rf_state st) = d_term st /\
+  (length (stream (rf_state st)) <= length (stream st))%nat.
+Proof.
+  intros I DE. pose proof (rf_buf_inv st I) as B. pose proof (rf_cap_inv st I) as [CP CP0].
+  pose proof I as (I1 & I2 & I3 & I4 & I5 & I6).
+  destruct (read_full_spec (d_term st) (d_reader st) (S (length (d_reader st))) (rf_cap st - len (d_remain st)) []
+              I1 ltac:(lia) ltac:(lia)) as (data & e & s' & R & SD & C' & L & EN & EE).
+  cbn [app] in R, EE.
+  assert (RR : rf_read st = (data, e, s')) by (unfold rf_read; rewrite B; exact R).
+  unfold rf_state. rewrite RR, B. cbn [fst snd]. rewrite ssn_fst.
+  set (st2 := {| d_buffer := d_remain st ++ data; d_cap := rf_cap st; d_remain := skip_ws (d_remain st ++ data);
+                 d_offset := d_offset st + snd (json_skipSpacesN (d_remain st ++ data)); d_err := rf_err data e;
+                 d_reader := s'; d_term := d_term st |}).
+  assert (ST : stream st = (d_remain st ++ data) ++ script_data s').
+  { unfold stream, unread. rewrite SD. apply app_assoc. }
+  assert (ST2 : stream st2 = skip_ws (d_remain st ++ data) ++ script_data s') by reflexivity.
+  assert (ERR : rf_err data e <> None -> data = [] /\ s' = [] /\ e = Some (term_err (d_term st) [])).
+  { unfold rf_err. destruct (Z.gtb_spec (len data) 0); [congruence|]. intros X.
+    assert (D0 : data = []) by (apply len_0_nil; pose proof (len_nonneg data); lia).
+    assert (e <> None) by (intros Y; subst e; congruence).
+    destruct (EE H0) as (E1 & _ & E3). subst data. auto. }
+  split; [|split; [|split; [|split]]].
+  - unfold Inv. rewrite ST2. subst st2. cbn [d_reader d_remain d_err d_cap d_term].
+    split; [assumption|]. split; [apply skip_ws_idem|]. split; [intros X; apply ERR in X; tauto|].
+    split.
+    { rewrite ST in I4. destruct (skip_ws_suffix (d_remain st ++ data)) as (pre & P1 & _).
+      rewrite P1 in I4. rewrite <- app_assoc in I4. apply wfb_app_iff in I4. tauto. }
+    split.
+    { right. split; [assumption|]. pose proof (skip_ws_len (d_remain st ++ data)) as SL. rewrite len_app in SL. clear - SL L. lia. }
+    intros x X. assert (X' : rf_err data e <> None) by congruence. destruct (ERR X') as (E1 & E2 & E3).
+    subst data e. unfold rf_err in X. cbn in X. unfold term_err, final_err in *. cbn in X.
+    destruct (d_term st); congruence.
+  - rewrite ST2, ST. apply skip_ws_app2.
+  - unfold mu, unread. subst st2. cbn [d_reader d_err]. rewrite DE, SD, app_length.
+    destruct e as [e|].
+    + destruct (EE ltac:(discriminate)) as (E1 & E2 & E3). subst s'. cbn [script_data map concat length].
+      unfold rf_err. destruct (Z.gtb_spec (len data) 0).
+      * unfold len in *. destruct (d_reader st); lia.
+      * destruct e; destruct (d_reader st); cbn [length]; lia.
+    + specialize (EN eq_refl). assert (d_reader st <> []).
+      { intros X. rewrite X in SD. cbn in SD. destruct data; [cbn in EN; lia|discriminate]. }
+      unfold len in *. destruct (d_reader st); [congruence|].
+      destruct (rf_err data None); destruct s'; lia.
+  - reflexivity.
+  - rewrite ST2, ST. pose proof (skip_ws_length (d_remain st ++ data)). rewrite !app_length in *. lia.
+Qed.
+
+(* ================= E2. what one call of readValue returns ================= *)
+Definition rv_post (st : dstate) (res : dresult) (st' : dstate) : Prop :=
+  let S := skip_ws (stream st) in
+  match res with
+  | DValue v => exists r, S = v ++ r /\ v <> [] /\ g_value (Datatypes.S (length S)) S = Some r /\ Inv st' /\
+                  skip_ws (stream st') = skip_ws r /\ d_term st' = d_term st /\ (length (stream st') <= length (stream st))%nat
+  | DSyntax => S <> [] /\ g_value (Datatypes.S (length S)) S = None
+  | DError e => (d_term st = RFail -> e = RFail) /\
+                (d_term st = REOF -> (e = REOF /\ S = []) \/
+                                     (e = RUnexpectedEOF /\ S <> [] /\ g_value (Datatypes.S (length S)) S = None))
+  | DOutOfFuel => False
+  end.
+
+Lemma flags_sound_0 b : flags_sound 0 b.
+Proof. split; intros H; discriminate H. Qed.
+
+Lemma attempt_spec pfuel dflags st : Inv st -> flags_sound dflags (d_remain st) -> len (stream st) < 2 ^ 62 ->
+  (2 * length (stream st) + 8 <= pfuel)%nat ->
+  match rv_attempt pfuel dflags st with
+  | Some (res, st') => rv_post st res st'
+  | None => d_err st = Some REOF -> d_remain st <> [] -> g_value (S (length (d_remain st))) (d_remain st) = None
+  end.
+Proof.
+  intros I FS LS PF. pose proof I as (I1 & I2 & I3 & I4 & I5 & I6).
+  unfold rv_attempt. set (m := unread st).
+  destruct (d_remain st) as [|c0 w0] eqn:EW; [cbn; congruence|]. rewrite len_cons_nz.
+  set (w := c0 :: w0) in *.
+  assert (STR : stream st = w ++ m) by (unfold stream; rewrite EW; reflexivity).
+  assert (WN : w <> []) by discriminate.
+  assert (SS : skip_ws (stream st) = w ++ m).
+  { rewrite STR. rewrite skip_ws_app by (rewrite I2; assumption). rewrite I2. reflexivity. }
+  rewrite STR in I4. pose proof I4 as I4'. apply wfb_app_iff in I4'. destruct I4' as [Ww Wm].
+  assert (Lw : (length w <= length (stream st))%nat) by (rewrite STR, app_length; lia).
+  destruct (pv_all dflags pfuel w (S (length w)) Ww ltac:(unfold len in *; lia) FS ltac:(lia) ltac:(lia))
+    as (v & r & k & e & E & Hok & Herr).
+  rewrite E. destruct e as [e|].
+  - destruct (Z.eqb_spec (len r) 0) as [R0|R0]; cbn [negb].
+    + intros _ _. apply Herr. discriminate.
+    + unfold rv_post. rewrite SS. split; [destruct w; [congruence|discriminate]|].
+      apply (pv_bad pfuel dflags w v r k e); auto; try (unfold len in *; lia).
+      intros X. subst r. apply R0. reflexivity.
+  - destruct (Hok eq_refl) as (G & j & J1 & J2 & J3). clear Hok Herr.
+    assert (WV : w = v ++ r) by (subst v r; symmetry; apply st_sf).
+    assert (VN : v <> []).
+    { intros X. pose proof (len_slice_to w j ltac:(lia)) as LV. rewrite <- J2, X in LV. cbn in LV. lia. }
+    match goal with |- match (if ?c then _ else _) with _ => _ end => destruct c eqn:COND end.
+    2:{ intros DE _. rewrite DE in COND. rewrite orb_true_r in COND. discriminate. }
+    assert (GX : g_value (S (length (w ++ m))) (w ++ m) = Some (r ++ m)).
+    { apply (g_value_mono (S (length w))); [|rewrite app_length; lia].
+      apply orb_true_iff in COND. destruct COND as [COND|COND]; [apply orb_true_iff in COND; destruct COND as [COND|COND]|].
+      - apply g_value_ext; [assumption|]. left. intros X. rewrite X in COND. discriminate COND.
+      - assert (M0 : m = []).
+        { unfold m, unread. rewrite I3; [reflexivity|]. destruct (d_err st); [discriminate|discriminate COND]. }
+        rewrite M0, !app_nil_r. assumption.
+      - apply g_value_ext; [assumption|]. right. destruct (num_start w) eqn:NS; [|reflexivity].
+        rewrite (pv_kind pfuel dflags w v r k E NS) in COND. discriminate. }
+    pose proof (ssn_fst r) as SF. destruct (json_skipSpacesN r) as [rem' n]. cbn [fst] in SF. subst rem'.
+    unfold rv_post. rewrite SS. exists (r ++ m).
+    split; [rewrite WV; symmetry; apply app_assoc|]. split; [assumption|]. split; [assumption|].
+    assert (WR : wfb (skip_ws r ++ m) = true).
+    { rewrite WV in Ww. apply wfb_app_iff in Ww. destruct Ww as [_ Wr].
+      destruct (skip_ws_suffix r) as (pre & P1 & _). rewrite P1 in Wr. apply wfb_app_iff in Wr.
+      apply wfb_app_iff. tauto. }
+    split; [|split; [|split]].
+    + unfold Inv, stream, unread. cbn [d_reader d_remain d_err d_cap d_term].
+      split; [assumption|]. split; [apply skip_ws_idem|]. split; [assumption|]. split; [exact WR|].
+      split; [|assumption]. right. destruct I5 as [[_ C]|[C1 C2]]; [congruence|].
+      split; [assumption|]. pose proof (skip_ws_len r). rewrite WV, len_app in C2. pose proof (len_nonneg v). lia.
+    + unfold stream, unread. cbn [d_reader d_remain]. apply skip_ws_app2.
+    + reflexivity.
+    + unfold stream, unread. cbn [d_reader d_remain]. rewrite EW. fold (unread st). fold m. fold w. rewrite WV, !app_length.
+      pose proof (skip_ws_length r). lia.
+Qed.
+
+(* ================= E3. readValue ================= *)
+Lemma rv_post_transfer st2 st res st' : skip_ws (stream st2) = skip_ws (stream st) -> d_term st2 = d_term st ->
+  (length (stream st2) <= length (stream st))%nat -> rv_post st2 res st' -> rv_post st res st'.
+Proof.
+  intros E1 E2 E3. unfold rv_post. rewrite E1, E2. destruct res; auto.
+  intros (r & H1 & H2 & H3 & H4 & H5 & H6 & H7). exists r. do 6 (split; [assumption|]). lia.
+Qed.
+Lemma mu_pos st : (1 <= mu st)%nat.
+Proof. unfold mu. lia. Qed.
+
+Lemma read_value_spec N pfuel : Z.of_nat N < 2 ^ 62 -> (2 * N + 8 <= pfuel)%nat ->
+  forall fuel st dflags, Inv st -> flags_sound dflags (d_remain st) -> (length (stream st) <= N)%nat -> (mu st <= fuel)%nat ->
+    rv_post st (fst (read_value fuel pfuel 0 dflags st)) (snd (read_value fuel pfuel 0 dflags st)).
+Proof.
+  intros HN PF. induction fuel as [|f IH]; intros st dflags I FS LN MU.
+  { pose proof (mu_pos st). lia. }
+  rewrite read_value_eq.
+  pose proof (attempt_spec pfuel dflags st I FS ltac:(unfold len; lia) ltac:(lia)) as A.
+  destruct (rv_attempt pfuel dflags st) as [[res st']|]; [exact A|].
+  pose proof I as (I1 & I2 & I3 & I4 & I5 & I6).
+  destruct (d_err st) as [e|] eqn:DE.
+  - cbn [fst snd]. specialize (I6 e eq_refl). specialize (I3 ltac:(discriminate)).
+    assert (SS : skip_ws (stream st) = d_remain st).
+    { unfold stream, unread. rewrite I3. cbn [script_data map concat]. rewrite app_nil_r. assumption. }
+    unfold rv_final, rv_post. rewrite SS.
+    destruct e.
+    + destruct (Z.eqb_spec (len (d_remain st)) 0) as [L0|L0]; cbn [negb].
+      * apply len_0_nil in L0. split; [intros T; rewrite T in I6; discriminate I6|]. intros _. left. auto.
+      * assert (RN : d_remain st <> []) by (intros X; rewrite X in L0; apply L0; reflexivity).
+        split; [intros T; rewrite T in I6; discriminate I6|]. intros _. right. auto.
+    + unfold final_err in I6. destruct (d_term st); discriminate I6.
+    + split; [reflexivity|]. intros T. rewrite T in I6. discriminate I6.
+  - destruct (rf_spec st I DE) as (I' & S' & M' & T' & L').
+    apply (rv_post_transfer (rf_state st) st); auto.
+    apply IH; auto; try lia.
+    unfold rf_flags. destruct I' as (_ & J2 & _ & J4 & _).
+    destruct (json_internalParseFlags pfuel (d_remain (rf_state st))) as [d|] eqn:IPF; [|apply flags_sound_0].
+    rewrite Z.lor_0_l. apply wfb_app_iff in J4. destruct J4 as [J4 _].
+    assert (LL : (length (d_remain (rf_state st)) <= length (stream (rf_state st)))%nat).
+    { unfold stream. rewrite app_length. lia. }
+    destruct (internal_flags_sound (d_remain (rf_state st)) pfuel d J4 ltac:(unfold len; lia) ltac:(lia) J2 IPF) as [X _].
+    exact X.
+Qed.
+
+(* ================= E4. Decode to the end of the stream against the framing by the grammar ================= *)
+Lemma frame_skip f b : frame f b = frame f (skip_ws b).
+Proof. destruct f; [reflexivity|]. cbn [frame]. rewrite skip_ws_idem. reflexivity. Qed.
+Lemma frame_S_nil f b : skip_ws b = [] -> frame (S f) b = ([], true).
+Proof. intros H. cbn [frame]. rewrite H. reflexivity. Qed.
+Lemma frame_S_cons f b : skip_ws b <> [] -> frame (S f) b =
+  match g_value (S (length (skip_ws b))) (skip_ws b) with
+  | None => ([], false)
+  | Some r => let '(vs, ok) := frame f r in (consumed (skip_ws b) r :: vs, ok)
+  end.
+Proof. intros H. cbn [frame]. destruct (skip_ws b); [congruence|reflexivity]. Qed.
+Lemma consumed_app (v r : bytes) : consumed (v ++ r) r = v.
+Proof.
+  unfold consumed. rewrite app_length. replace (length v + length r - length r)%nat with (length v) by lia.
+  rewrite firstn_app, Nat.sub_diag, firstn_all. cbn [firstn]. apply app_nil_r.
+Qed.
+Lemma mu_le st : (mu st <= length (stream st) + 3)%nat.
+Proof. unfold mu, stream. rewrite app_length. destruct (d_reader st), (d_err st); lia. Qed.
+
+Definition da_post (term : rerr) (acc : list bytes) (out : list bytes * dresult * list Z) (spec : list bytes * bool) : Prop :=
+  let '(vals, fin, _) := out in
+  let '(svals, clean) := spec in
+  (term = REOF -> vals = rev acc ++ svals /\ (clean = true -> fin = DError REOF) /\
+                  (clean = false -> fin <> DError REOF /\ fin <> DOutOfFuel)) /\
+  (term = RFail -> (exists k, vals = rev acc ++ firstn k svals) /\ (fin = DError RFail \/ fin = DSyntax)).
+
+Lemma decode_all_spec N pfuel fuel : Z.of_nat N < 2 ^ 62 -> (2 * N + 8 <= pfuel)%nat -> (N + 3 <= fuel)%nat ->
+  forall steps F st acc offs, Inv st -> (length (stream st) <= N)%nat ->
+    (length (skip_ws (stream st)) < steps)%nat -> (length (skip_ws (stream st)) < F)%nat ->
+    da_post (d_term st) acc (decode_all steps fuel pfuel st acc offs) (frame F (stream st)).
+Proof.
+  intros HN PF FU. induction steps as [|k IH]; intros F st acc offs I LN LS LF; [lia|].
+  destruct F as [|F']; [lia|].
+  cbn [decode_all].
+  pose proof (read_value_spec N pfuel HN PF fuel st 0 I (flags_sound_0 _) LN ltac:(pose proof (mu_le st); lia)) as P.
+  destruct (read_value fuel pfuel 0 0 st) as [res st']. cbn [fst snd] in P.
+  unfold rv_post in P. cbv zeta in P.
+  destruct res as [v|e| |].
+  - destruct P as (r & H1 & H2 & H3 & H4 & H5 & H6 & H7).
+    assert (SN : skip_ws (stream st) <> []).
+    { intros X. rewrite X in H1. destruct v; [congruence|discriminate]. }
+    rewrite (frame_S_cons F' _ SN), H3.
+    assert (LR : (length (skip_ws r) < length (skip_ws (stream st)))%nat).
+    { rewrite H1, app_length. pose proof (skip_ws_length r). destruct v; [congruence|cbn [length]; lia]. }
+    specialize (IH F' st' (v :: acc) (d_offset st' :: offs) H4 ltac:(lia) ltac:(rewrite H5; lia) ltac:(rewrite H5; lia)).
+    rewrite (frame_skip F' r), <- H5, <- frame_skip. rewrite H6 in IH.
+    destruct (decode_all k fuel pfuel st' (v :: acc) (d_offset st' :: offs)) as [[vals fin] os].
+    destruct (frame F' (stream st')) as [vs ok]. rewrite H1 at 1. rewrite consumed_app.
+    cbv beta iota zeta delta [da_post] in *. pose proof (proj1 IH) as IH1. pose proof (proj2 IH) as IH2. cbn [rev] in IH1, IH2. split.
+    + intros T. destruct (IH1 T) as (A1 & A2 & A3). rewrite <- app_assoc in A1. auto.
+    + intros T. destruct (IH2 T) as ((k' & A1) & A2). split; [|assumption].
+      exists (S k'). rewrite <- app_assoc in A1. exact A1.
+  - destruct P as [P1 P2]. destruct (frame (S F') (stream st)) as [svals clean] eqn:FR.
+    cbv beta iota zeta delta [da_post]. split.
+    + intros T. destruct (P2 T) as [[E1 E2]|(E1 & E2 & E3)].
+      * rewrite (frame_S_nil F' _ E2) in FR. injection FR as <- <-. subst e. rewrite app_nil_r. repeat split; try congruence.
+      * rewrite (frame_S_cons F' _ E2), E3 in FR. injection FR as <- <-. subst e. rewrite app_nil_r. repeat split; try congruence.
+    + intros T. rewrite (P1 T).
+      split; [exists 0%nat; cbn [firstn]; rewrite app_nil_r; reflexivity|left; reflexivity].
+  - destruct P as [P1 P2]. rewrite (frame_S_cons F' _ P1), P2. cbv beta iota zeta delta [da_post]. split.
+    + intros _. rewrite app_nil_r. repeat split; try congruence.
+    + intros _. split; [exists 0%nat; cbn [firstn]; rewrite app_nil_r; reflexivity|right; reflexivity].
+  - destruct P.
+Qed.
+
+Lemma inv_init s term : script_clean s -> wfb (script_data s) = true -> Inv (d_init s term).
+Proof.
+  intros C W. unfold Inv, stream, unread. cbn [d_init d_reader d_remain d_err d_cap d_term app].
+  split; [assumption|]. split; [reflexivity|]. split; [congruence|]. split; [assumption|].
+  split; [left; auto|]. discriminate.
+Qed.
+Lemma all_values_spec s term : wfb (script_data s) = true -> len (script_data s) < 2 ^ 30 -> script_clean s ->
+  da_post term [] (all_values s term) (frame (S (length (script_data s))) (script_data s)).
+Proof.
+  intros W L C. unfold all_values. cbv zeta.
+  set (n := length (script_data s)).
+  pose proof (decode_all_spec n (2 * n + 8) (n + length s + 40) ltac:(unfold len in L; fold n in L; lia) ltac:(lia) ltac:(lia)
+                (n + 2)%nat (S n) (d_init s term) [] [] (inv_init s term C W)) as P.
+  change (stream (d_init s term)) with (script_data s) in P. change (d_term (d_init s term)) with term in P.
+  pose proof (skip_ws_length (script_data s)). fold n in H.
+  apply P; lia.
+Qed.
+
 Lemma stream_independent : stream_independent_statement.
-Admitted.
-Lemma chunking_irrelevant : chunking_irrelevant_statement.
-Admitted.
+Proof.
+  intros s W L C. pose proof (all_values_spec s REOF W L C) as P. unfold da_post in P.
+  destruct (all_values s REOF) as [[vals fin] os].
+  destruct (frame (S (length (script_data s))) (script_data s)) as [svals clean].
+  destruct P as [P _]. exact (P eq_refl).
+Qed.
 Lemma stream_failing : stream_failing_statement.
-Admitted.
+Proof.
+  intros s W L C. pose proof (all_values_spec s RFail W L C) as P. unfold da_post in P.
+  destruct (all_values s RFail) as [[vals fin] os].
+  destruct (frame (S (length (script_data s))) (script_data s)) as [svals clean].
+  destruct P as [_ P]. exact (P eq_refl).
+Qed.
+
+(* ================= E5. two readers delivering the same bytes: a simulation ================= *)
+Definition set_reader (st : dstate) (rd : script) : dstate :=
+  {| d_buffer := d_buffer st; d_cap := d_cap st; d_remain := d_remain st; d_offset := d_offset st; d_err := d_err st;
+     d_reader := rd; d_term := d_term st |}.
+Definition Sim (st1 st2 : dstate) : Prop :=
+  st2 = set_reader st1 (d_reader st2) /\ script_data (d_reader st1) = script_data (d_reader st2).
+
+Lemma rv_attempt_set_reader pfuel dflags st rd :
+  rv_attempt pfuel dflags (set_reader st rd) =
+  match rv_attempt pfuel dflags st with Some (res, st') => Some (res, set_reader st' rd) | None => None end.
+Proof.
+  unfold rv_attempt. cbn [set_reader d_remain d_err d_buffer d_cap d_offset d_reader d_term].
+  destruct (len (d_remain st) =? 0); [reflexivity|].
+  destruct (json_decoder_parseValue pfuel dflags (d_remain st)) as [[[[v r] k] [e|]]|]; [| |reflexivity].
+  - destruct (negb (len r =? 0)); reflexivity.
+  - destruct (negb (len r =? 0) || _ || _); [|reflexivity]. destruct (json_skipSpacesN r). reflexivity.
+Qed.
+
+Lemma rv_attempt_reader pfuel dflags st res st' : rv_attempt pfuel dflags st = Some (res, st') -> d_reader st' = d_reader st.
+Proof.
+  unfold rv_attempt. destruct (len (d_remain st) =? 0); [discriminate|].
+  destruct (json_decoder_parseValue pfuel dflags (d_remain st)) as [[[[v r] k] [e|]]|].
+  - destruct (negb (len r =? 0)); [|discriminate]. intros H. injection H as _ H. subst. reflexivity.
+  - destruct (negb (len r =? 0) || _ || _); [|discriminate]. destruct (json_skipSpacesN r).
+    intros H. injection H as _ H. subst. reflexivity.
+  - intros H. injection H as _ H. subst. reflexivity.
+Qed.
+Lemma app_eq_len {A} (a b x y : list A) : length a = length b -> a ++ x = b ++ y -> a = b /\ x = y.
+Proof.
+  revert b. induction a as [|c a IH]; intros [|d b] L E; cbn in L; try lia; [auto|].
+  cbn [app] in E. injection E as E1 E2. destruct (IH b ltac:(lia) E2). subst. auto.
+Qed.
+Lemma read_full_det term s1 s2 n : script_clean s1 -> script_clean s2 -> script_data s1 = script_data s2 -> 0 <= n ->
+  fst (read_full (S (length s1)) term s1 n []) = fst (read_full (S (length s2)) term s2 n []) /\
+  script_data (snd (read_full (S (length s1)) term s1 n [])) = script_data (snd (read_full (S (length s2)) term s2 n [])).
+Proof.
+  intros C1 C2 SD Hn.
+  destruct (read_full_spec term s1 (S (length s1)) n [] C1 ltac:(lia) Hn) as (d1 & e1 & r1 & R1 & S1 & _ & L1 & N1 & E1).
+  destruct (read_full_spec term s2 (S (length s2)) n [] C2 ltac:(lia) Hn) as (d2 & e2 & r2 & R2 & S2 & _ & L2 & N2 & E2).
+  rewrite R1, R2. cbn [fst snd app] in *. rewrite S1, S2 in SD.
+  destruct e1 as [e1|], e2 as [e2|].
+  - destruct (E1 ltac:(discriminate)) as (A1 & A2 & A3). destruct (E2 ltac:(discriminate)) as (B1 & B2 & B3).
+    subst r1 r2. cbn in SD. rewrite !app_nil_r in SD. subst d2. split; [congruence|reflexivity].
+  - destruct (E1 ltac:(discriminate)) as (A1 & A2 & A3). specialize (N2 eq_refl). subst r1. cbn in SD. rewrite app_nil_r in SD.
+    subst d1. rewrite len_app in A2. pose proof (len_nonneg (script_data r2)). lia.
+  - destruct (E2 ltac:(discriminate)) as (A1 & A2 & A3). specialize (N1 eq_refl). subst r2. cbn in SD. rewrite app_nil_r in SD.
+    subst d2. rewrite len_app in A2. pose proof (len_nonneg (script_data r1)). lia.
+  - specialize (N1 eq_refl). specialize (N2 eq_refl).
+    destruct (app_eq_len d1 d2 _ _ ltac:(unfold len in *; lia) SD). subst. auto.
+Qed.
+
+Lemma sim_fields st1 st2 : Sim st1 st2 ->
+  d_buffer st2 = d_buffer st1 /\ d_cap st2 = d_cap st1 /\ d_remain st2 = d_remain st1 /\ d_offset st2 = d_offset st1 /\
+  d_err st2 = d_err st1 /\ d_term st2 = d_term st1.
+Proof. intros [E _]. rewrite E. cbn. repeat split. Qed.
+
+Lemma rf_sim pfuel flags st1 st2 : Inv st1 -> Inv st2 -> Sim st1 st2 ->
+  Sim (rf_state st1) (rf_state st2) /\ rf_flags pfuel flags st1 = rf_flags pfuel flags st2.
+Proof.
+  intros I1 I2 S. pose proof (sim_fields _ _ S) as (F1 & F2 & F3 & F4 & F5 & F6). destruct S as [_ SD].
+  assert (B : rf_buf st2 = rf_buf st1) by (unfold rf_buf; rewrite F2, F3; reflexivity).
+  assert (C : rf_cap st2 = rf_cap st1) by (unfold rf_cap; rewrite B, F2; reflexivity).
+  pose proof (rf_cap_inv st1 I1) as [CP _]. rewrite <- (rf_buf_inv st1 I1) in CP.
+  destruct (read_full_det (d_term st1) (d_reader st1) (d_reader st2) (rf_cap st1 - len (rf_buf st1))
+              ltac:(apply I1) ltac:(apply I2) SD ltac:(lia)) as [D1 D2].
+  assert (R : fst (rf_read st2) = fst (rf_read st1) /\ script_data (snd (rf_read st2)) = script_data (snd (rf_read st1))).
+  { unfold rf_read. rewrite B, C, F6. split; [symmetry; exact D1|symmetry; exact D2]. }
+  destruct R as [R1 R2].
+  assert (RS : rf_state st2 = set_reader (rf_state st1) (snd (rf_read st2))).
+  { unfold rf_state, set_reader. cbn [d_buffer d_cap d_remain d_offset d_err d_reader d_term].
+    rewrite R1, B, C, F4, F6. reflexivity. }
+  split.
+  - split; [|unfold rf_state; cbn [d_reader]; symmetry; exact R2].
+    rewrite RS. unfold set_reader. cbn [d_reader]. reflexivity.
+  - unfold rf_flags. rewrite RS. reflexivity.
+Qed.
+
+Lemma rv_sim pfuel : forall f1 f2 st1 st2 dfl, Inv st1 -> Inv st2 -> Sim st1 st2 -> (mu st1 <= f1)%nat -> (mu st2 <= f2)%nat ->
+  fst (read_value f1 pfuel 0 dfl st1) = fst (read_value f2 pfuel 0 dfl st2) /\
+  Sim (snd (read_value f1 pfuel 0 dfl st1)) (snd (read_value f2 pfuel 0 dfl st2)).
+Proof.
+  induction f1 as [|f1 IH]; intros f2 st1 st2 dfl I1 I2 S M1 M2.
+  { pose proof (mu_pos st1). lia. }
+  destruct f2 as [|f2]; [pose proof (mu_pos st2); lia|].
+  rewrite !read_value_eq.
+  pose proof (sim_fields _ _ S) as (F1 & F2 & F3 & F4 & F5 & F6).
+  destruct S as [E SD].
+  assert (A2 : rv_attempt pfuel dfl st2 = match rv_attempt pfuel dfl st1 with Some (res, st') => Some (res, set_reader st' (d_reader st2)) | None => None end).
+  { rewrite E at 1. apply rv_attempt_set_reader. }
+  rewrite A2. clear A2.
+  destruct (rv_attempt pfuel dfl st1) as [[res st1']|] eqn:A1.
+  - cbn [fst snd]. split; [reflexivity|]. split; [reflexivity|]. cbn [set_reader d_reader].
+    rewrite (rv_attempt_reader _ _ _ _ _ A1). exact SD.
+  - rewrite F5. destruct (d_err st1) as [e|] eqn:DE.
+    + cbn [fst snd]. split; [unfold rv_final; rewrite F3; reflexivity|]. split; assumption.
+    + destruct (rf_spec st1 I1 DE) as (J1 & _ & K1 & _). destruct (rf_spec st2 I2 ltac:(congruence)) as (J2 & _ & K2 & _).
+      destruct (rf_sim pfuel 0 st1 st2 I1 I2 (conj E SD)) as [SS FF]. rewrite <- FF.
+      apply IH; auto; lia.
+Qed.
+
+Lemma sim_stream st1 st2 : Sim st1 st2 -> stream st2 = stream st1.
+Proof.
+  intros S. pose proof (sim_fields _ _ S) as (_ & _ & F3 & _). destruct S as [_ SD].
+  unfold stream, unread. rewrite F3, SD. reflexivity.
+Qed.
+Lemma decode_all_sim N pfuel fuel1 fuel2 : Z.of_nat N < 2 ^ 62 -> (2 * N + 8 <= pfuel)%nat -> (N + 3 <= fuel1)%nat -> (N + 3 <= fuel2)%nat ->
+  forall steps st1 st2 acc offs, Inv st1 -> Inv st2 -> Sim st1 st2 -> (length (stream st1) <= N)%nat ->
+    decode_all steps fuel1 pfuel st1 acc offs = decode_all steps fuel2 pfuel st2 acc offs.
+Proof.
+  intros HN PF FU1 FU2. induction steps as [|k IH]; intros st1 st2 acc offs I1 I2 S LN; [reflexivity|].
+  cbn [decode_all].
+  pose proof (sim_stream _ _ S) as SS.
+  pose proof (read_value_spec N pfuel HN PF fuel1 st1 0 I1 (flags_sound_0 _) LN ltac:(pose proof (mu_le st1); lia)) as P1.
+  pose proof (read_value_spec N pfuel HN PF fuel2 st2 0 I2 (flags_sound_0 _) ltac:(rewrite SS; lia)
+                ltac:(pose proof (mu_le st2); rewrite SS in *; lia)) as P2.
+  destruct (rv_sim pfuel fuel1 fuel2 st1 st2 0 I1 I2 S ltac:(pose proof (mu_le st1); lia)
+              ltac:(pose proof (mu_le st2); rewrite SS in *; lia)) as [R1 R2].
+  destruct (read_value fuel1 pfuel 0 0 st1) as [res1 st1']. destruct (read_value fuel2 pfuel 0 0 st2) as [res2 st2'].
+  cbn [fst snd] in *. subst res2. destruct res1 as [v|e| |]; try reflexivity.
+  unfold rv_post in P1, P2. cbv zeta in P1, P2.
+  destruct P1 as (r1 & _ & _ & _ & J1 & _ & _ & L1). destruct P2 as (r2 & _ & _ & _ & J2 & _ & _ & L2).
+  pose proof (sim_fields _ _ R2) as (_ & _ & _ & F4 & _). rewrite F4.
+  apply IH; auto. lia.
+Qed.
+
+Lemma chunking_irrelevant : chunking_irrelevant_statement.
+Proof.
+  intros s1 s2 SD W L C1 C2. unfold all_values. cbv zeta. rewrite <- SD.
+  set (n := length (script_data s1)).
+  rewrite (decode_all_sim n (2 * n + 8) (n + length s1 + 40) (n + length s2 + 40)
+             ltac:(unfold len in L; fold n in L; lia) ltac:(lia) ltac:(lia) ltac:(lia)
+             (n + 2)%nat (d_init s1 REOF) (d_init s2 REOF) [] []
+             (inv_init s1 REOF C1 W) (inv_init s2 REOF C2 ltac:(rewrite <- SD; exact W))).
+  - split; reflexivity.
+  - split; [reflexivity|exact SD].
+  - change (stream (d_init s1 REOF)) with (script_data s1). fold n. lia.
+Qed.
